@@ -267,6 +267,44 @@ func TestCheck(t *testing.T) {
 			Damage: []scen.Damage{{Op: "flip", File: 0, Off: 1000 + k}}})
 	}
 
+	// "cat F G > F; rm G" where F is a whole number of slices: G's slices sit behind F's complete content
+	for k := 0; k < 3; k++ {
+		if cfg.Shard != (15+k)%cfg.NShards {
+			continue
+		}
+		rec.Class("lost-file-appended-to-a-complete-file")
+		S := []int{8, 64, 1000}[k]
+		files := []scen.FileSpec{{Name: "f.bin", Size: 4 * S, Kind: "random", Seed: uint64(15 + k)}, {Name: "g.bin", Size: 3*S - k, Kind: "random", Seed: uint64(25 + k)}, {Name: "h.bin", Size: 10, Kind: "random", Seed: 3}}
+		do(scen.Case{Slice: S, NRec: 1, GCreate: 1, GRepair: 1 + k, Files: files, Damage: []scen.Damage{{Op: "catonto", File: 0, Other: 1}}})
+		do(scen.Case{Slice: S, NRec: 1, GCreate: 1, GRepair: 1, Files: files, Damage: []scen.Damage{{Op: "catonto", File: 0, Other: 1}}, DelVolumes: []int{0, 1, 2}})
+	}
+	// files of 16 MiB and more: content shifted by one byte, damage in the last slice of an 8 MiB segment, two files exchanged
+	for k := 0; k < 3; k++ {
+		if cfg.Shard != (2+5*k)%cfg.NShards {
+			continue
+		}
+		rec.Class("file>=16MiB")
+		big := []scen.FileSpec{{Name: "big.bin", Size: 20 << 20, Kind: "random", Seed: uint64(91 + k)}, {Name: "small.bin", Size: 5000, Kind: "random", Seed: 92}}
+		switch k {
+		case 0:
+			do(scen.Case{Slice: 4096, NRec: 1, GCreate: 4, GRepair: 4, Files: big, Damage: []scen.Damage{{Op: "insert", File: 0, Off: 0, Len: 1, Seed: 1}}})
+		case 1:
+			do(scen.Case{Slice: 4096, NRec: 1, GCreate: 4, GRepair: 4, Files: big, Damage: []scen.Damage{{Op: "flip", File: 0, Off: 2047*4096 + 5}}})
+		case 2:
+			two := []scen.FileSpec{{Name: "one.bin", Size: 16 << 20, Kind: "random", Seed: 93}, {Name: "two.bin", Size: 16 << 20, Kind: "random", Seed: 94}}
+			do(scen.Case{Slice: 1 << 20, NRec: 1, GCreate: 4, GRepair: 2, Files: two, Damage: []scen.Damage{{Op: "swap", File: 0, Other: 1}}})
+		}
+	}
+	// a file is turned into its MD5 twin (six bit flips, same length and MD5): the slice is lost and must be restored
+	for k := 0; k < 3; k++ {
+		if cfg.Shard != (12+k)%cfg.NShards {
+			continue
+		}
+		rec.Class("md5-colliding-content")
+		files := []scen.FileSpec{{Name: "a.bin", Size: 200 + 64*k, Kind: "md5a", Seed: uint64(5 + k)}, {Name: "b.bin", Size: 100, Kind: "random", Seed: 6}}
+		do(scen.Case{Slice: 128, NRec: 2, GCreate: 1, GRepair: 1 + k, DoubleCheck: k == 1, Files: files, Damage: []scen.Damage{{Op: "md5twin", File: 0}}})
+		do(scen.Case{Slice: 64, NRec: 3, GCreate: 1, GRepair: 1, Files: files, Damage: []scen.Damage{{Op: "md5twin", File: 0}, {Op: "flip", File: 1, Off: 3}}})
+	}
 	// a slice is overwritten by other content with the same CRC-32 while the slice's real content survives only in a file that
 	// is scanned later (under another protected name): a rejected CRC hit says nothing about later windows
 	for k := 0; k < 3; k++ {
